@@ -23,6 +23,8 @@ PARTIAL = [
 ]
 ASSUMPTIONS = ["the solver output is unconstrained in the theorems (any vectors); only the code's own post-processing is relied on"]
 JIT_TWIN = ('update', 'utils', 'large_update')   # groups of harness/jittwin.py: the numba-compiled code is run on the same battery and compared
+PRE_LEAN = C.s2_trace_extract   # S2: utils.extract_vars re-traced on every run (two grains)
+EXTRA_LEAN_MODULES = ("Bridge.Extract",)
 TRUSTED = ["harness/solver.py scenario driver and LSODA recorder"]
 
 
